@@ -50,6 +50,36 @@ fn main() {
         stems.dedup();
         let mut pres: Vec<String> = vec![String::new()];
         pres.extend(reg.prefixes.iter().map(|(p, _)| p.clone()));
+        // the resolution order of the property, written out over the registry tables: exact first (base unit, then unit), then
+        // the first prefix in list order whose rest is defined exactly (prefix value times unit), a plural `s` only after both
+        fn oracle_exact(reg: &rink_core::loader::Registry, n: &str) -> Option<rink_core::types::Number> {
+            if let Some(b) = reg.base_units.get(n) {
+                return Some(rink_core::types::Number::one_unit(b.clone()));
+            }
+            reg.units.get(n).cloned()
+        }
+        fn oracle_prefixed(reg: &rink_core::loader::Registry, n: &str) -> Option<rink_core::types::Number> {
+            if let Some(v) = oracle_exact(reg, n) {
+                return Some(v);
+            }
+            for (p, pv) in reg.prefixes.iter() {
+                if n.len() >= p.len() && n.is_char_boundary(p.len()) && &n[..p.len()] == p.as_str() {
+                    if let Some(u) = oracle_exact(reg, &n[p.len()..]) {
+                        return &u * &rink_core::types::Number::new(pv.clone());
+                    }
+                }
+            }
+            None
+        }
+        fn oracle(reg: &rink_core::loader::Registry, n: &str) -> Option<rink_core::types::Number> {
+            match oracle_prefixed(reg, n) {
+                Some(v) => Some(v),
+                None => match n.char_indices().last() {
+                    Some((i, 's')) => oracle_prefixed(reg, &n[..i]),
+                    _ => None,
+                },
+            }
+        }
         let (mut checked, mut nbad, mut k) = (0usize, 0usize, 0usize);
         for pre in &pres {
             for stem in &stems {
@@ -73,6 +103,8 @@ fn main() {
                         Ok((direct, canon, via, same_twice)) => {
                             if !same_twice {
                                 Some("two calls disagree".to_string())
+                            } else if direct != oracle(reg, &name) {
+                                Some("lookup does not follow exact, then first prefix in list order, then plural".to_string())
                             } else if direct.is_some() && canon.is_some() && via != direct {
                                 Some(format!("canonical name {:?} denotes {}", canon.unwrap(), match via { Some(_) => "another value", None => "nothing" }))
                             } else {
